@@ -136,3 +136,25 @@ def run(ctx):
                     check_result_shape(ctx, dict(jc, joint=False, W=W2, lens=[jc["lens"][-1]], after_joint=True), r2, [series[-1]])
                     ctx.count("sequence_calls")
             ctx.case(("sequence", rep, tuple(ws)), nontrivial=True)
+        # the joint front end accepts any iterable of series (it documents "a list (or other iterable)"): a tuple, a
+        # forward-only iterator, a generator expression and a map object must give the same lists as the list form
+        import fast_ticc
+        for rep in range(2 if ctx.quick() else 12):
+            jc = tu.gen_config(ctx.rng, joint=True)
+            jc.update({"limit": 2, "K": 2})
+            series = tu.config_data(jc)
+            forms = {"tuple": lambda: tuple(series), "iter": lambda: iter(list(series)),
+                     "generator": lambda: (s_ for s_ in series), "map": lambda: map(np.asarray, series)}
+            for name, mk in forms.items():
+                import warnings
+                tu.seed_all(jc["seed"])
+                try:
+                    with tu.quiet(), warnings.catch_warnings():
+                        warnings.simplefilter("ignore")
+                        r3 = fast_ticc.ticc_joint_labels(mk(), **tu.config_kwargs(jc))
+                except Exception as e:
+                    ctx.count("iterable_forms_raised:" + type(e).__name__)
+                    continue
+                check_result_shape(ctx, dict(jc, series_form=name), r3, series)
+                ctx.count("iterable_form:" + name)
+            ctx.case(("iterable-forms", rep), nontrivial=True)
